@@ -41,13 +41,14 @@ VARIABLES
   uq,        \* Seq of user items: a payload or [k |-> "GEN", frags |-> Seq(payload)]
   gen,       \* remaining fragments of the active generator (<<>> = none)      (dimse_gen)
   artim,     \* "off" | "run" | "exp"
-  dec,       \* reassembly: "fresh" | [cr, dr] | "unknown"
+  dec,       \* reassembly: [cr, dr, unk]
   user,      \* what the local user knows: "idle" | "assoc" | "over"
   ended,     \* the machine has come back to Sta1
   out        \* outputs of the last step (overwritten every step)
 
 vars == <<isReq, st, sock, stream, transit, rx, raw, peerFin, nid, evq, slot, uq, gen, artim, dec, user, ended, out>>
 
+Fresh  == [cr |-> FALSE, dr |-> FALSE, unk |-> FALSE]      \* reassembly state: nothing received
 NoSlot == [id |-> 0, k |-> "-", f |-> <<>>, pdvs |-> <<>>, grey |-> FALSE]
 NoGen  == <<>>
 Free   == <<"free">>              \* a field the standard leaves to the implementation
@@ -65,7 +66,7 @@ InitFor(role) ==
   /\ isReq = role /\ st = 1 /\ sock = (IF role THEN "none" ELSE "open")
   /\ stream = <<>> /\ transit = 0 /\ rx = 0 /\ raw = 0 /\ peerFin = FALSE
   /\ nid = 0 /\ evq = (IF role THEN <<>> ELSE <<[e |-> 5, id |-> 0]>>)
-  /\ slot = NoSlot /\ uq = <<>> /\ gen = NoGen /\ artim = "off" /\ dec = "fresh"
+  /\ slot = NoSlot /\ uq = <<>> /\ gen = NoGen /\ artim = "off" /\ dec = Fresh
   /\ user = "idle" /\ ended = FALSE /\ out = NoOut
 
 (* ------------------------------ environment ------------------------------ *)
@@ -98,20 +99,18 @@ Tick ==     \* enough time passes for a running ARTIM to be past its limit
 (* PDV flavours: "Cn" command fragment, "C0" last command fragment of a    *)
 (* message without data set, "C1" last command fragment, data set follows, *)
 (* "Dn" data fragment, "Dl" last data fragment.  Returns <<dec', done>>.    *)
-Fresh == [cr |-> FALSE, dr |-> FALSE]
 PdvStep(d, fl) ==
-  LET dd == IF d = "fresh" THEN Fresh ELSE d IN
-  CASE fl = "Cn" -> <<dd, FALSE>>
-    [] fl = "C0" -> <<"fresh", TRUE>>
-    [] fl = "C1" -> IF dd.dr THEN <<"fresh", TRUE>> ELSE <<[dd EXCEPT !.cr = TRUE], FALSE>>
-    [] fl = "Dn" -> <<dd, FALSE>>
-    [] fl = "Dl" -> IF dd.cr THEN <<"fresh", TRUE>> ELSE <<[dd EXCEPT !.dr = TRUE], FALSE>>
-    [] OTHER -> <<dd, FALSE>>
+  CASE fl = "Cn" -> <<d, FALSE>>
+    [] fl = "C0" -> <<Fresh, TRUE>>
+    [] fl = "C1" -> IF d.dr THEN <<Fresh, TRUE>> ELSE <<[d EXCEPT !.cr = TRUE], FALSE>>
+    [] fl = "Dn" -> <<d, FALSE>>
+    [] fl = "Dl" -> IF d.cr THEN <<Fresh, TRUE>> ELSE <<[d EXCEPT !.dr = TRUE], FALSE>>
+    [] OTHER -> <<d, FALSE>>
 RECURSIVE DecRun(_, _)
 DecRun(d, pdvs) ==          \* stops at completion (the rest of the PDU is not looked at)
   IF pdvs = <<>> THEN <<d, FALSE, 0>>
   ELSE LET r == PdvStep(d, Head(pdvs).fl) IN
-       IF r[2] THEN <<"fresh", TRUE, Head(pdvs).m>> ELSE DecRun(r[1], Tail(pdvs))
+       IF r[2] THEN <<Fresh, TRUE, Head(pdvs).m>> ELSE DecRun(r[1], Tail(pdvs))
 
 (* ------------------------------ one iteration ----------------------------- *)
 Readable == sock = "open" /\ (rx > 0 \/ (peerFin /\ transit = 0))
@@ -204,7 +203,7 @@ Iterate(rcv, src, wireF, indF, asInvalid, dimseFail) ==
              /\ sock' = IF Closes(a) THEN "none" ELSE IF Opens(a) THEN "open" ELSE sockP
              /\ artim' = CASE TimerOf(a) \in {"start", "restart"} -> "run"
                            [] TimerOf(a) = "stop" -> "off" [] OTHER -> artim
-             /\ dec' = IF a \in {"DT2", "AR6"} THEN (IF p.grey THEN "unknown" ELSE dr[1]) ELSE dec
+             /\ dec' = IF a \in {"DT2", "AR6"} THEN (IF p.grey THEN [Fresh EXCEPT !.unk = TRUE] ELSE dr[1]) ELSE dec
              /\ user' = CASE a \in {"AE6", "AE3"} -> "assoc"
                           [] a = "AE1" -> "assoc"      \* the requesting user awaits the outcome
                           [] a \in {"AE4", "AR3", "AA3", "AA4", "AA8"} -> "over"
